@@ -23,6 +23,8 @@ def check(run):
                    rule="V: random values of every Go type with random property subsets nested to depth <=4, judged the same way; G: case families of Cases.tla with the gob additions (nanoseconds, non-UTC zones), each through "
                         "ap.GobEncode/ap.GobDecode, T.GobEncode/(*T).GobDecode and MarshalBinary/UnmarshalBinary; decoded value "
                         "projected by reflection and compared by JsonRTTrace.tla with GFItem(input)")
+    from props import lifecommon
+    lifecommon.run_life(run, "gob", "gob-rt")
 
 
 def replay(run, path):
